@@ -10,6 +10,7 @@ import (
 	"go/constant"
 	"go/token"
 	"go/types"
+	"regexp"
 	"strings"
 	"unicode"
 
@@ -49,9 +50,18 @@ type LAtom struct {
 	Group int
 	K     string
 	Set   *relang.Set
+	Set2  *relang.Set // scan: symbols that reject at once (Set: symbols that accept at once)
+	N     int         // scan: index of the first symbol looked at
+	End   bool        // scan: verdict when the string ends without a deciding symbol
 	Str   string
 	Term  Term
 	Desc  string
+}
+
+type droppedGuard struct {
+	Fn   *ssa.Function
+	Args []Term
+	Pol  bool
 }
 
 type Form struct {
@@ -142,7 +152,12 @@ type Summarizer struct {
 	pv      *Prov
 	regexes map[string]*RegexConst // "pkg.var" -> constant
 	// Inexact is set when a guard had to be dropped (result over-approximates).
-	Inexact []string
+	// Dropped: boolean helper calls that appeared as a branch condition on the way to the summarised
+	// point but could not be modelled (e.g. a stack-based bracket matcher), with the polarity required there.
+	Dropped   []droppedGuard
+	loopCache map[*ssa.Function][]*scanLoop
+	loopOK    map[*ssa.Function]bool
+	Inexact   []string
 	// InexactIn[i] is the function holding the value dropped in Inexact[i] (nil when not known).
 	InexactIn []*ssa.Function
 	// exits whose guards must be pairwise disjoint for exactness
@@ -252,6 +267,32 @@ func (s *Summarizer) termOf(v ssa.Value, env termEnv) (Term, bool) {
 						t.Strip2 = rc
 					}
 					return t, true
+				}
+				// a single-result string helper of the repository all of whose returns yield the same term of its arguments
+				if f, ok := c.Value.(*ssa.Function); ok && f.Blocks != nil && f.Pkg != nil && strings.HasPrefix(f.Pkg.Pkg.Path(), modulePath) &&
+					f.Signature.Results().Len() == 1 && isStringish(f.Signature.Results().At(0).Type()) && s.depth < 20 {
+					env2 := termEnv{}
+					for i, p := range f.Params {
+						if i < len(c.Args) {
+							if t, ok := s.termOf(c.Args[i], env); ok {
+								env2[p] = t
+							}
+						}
+					}
+					var res *Term
+					s.depth++
+					for _, ret := range Returns(f) {
+						t, ok := s.termOf(ret.Results[0], env2)
+						if !ok || (res != nil && *res != t) {
+							s.depth--
+							return Term{}, false
+						}
+						res = &t
+					}
+					s.depth--
+					if res != nil {
+						return *res, true
+					}
 				}
 			}
 			return Term{}, false
@@ -487,6 +528,23 @@ func (s *Summarizer) callForm(call *ssa.Call, env termEnv) *Form {
 			return atom(&LAtom{Kind: kind, Str: k, Term: t, Desc: fmt.Sprintf("%s(%s,%q)", strings.TrimPrefix(name, "strings."), termStr(t), k)})
 		}
 	}
+	if name == "strings.ContainsFunc" && len(c.Args) == 2 {
+		t, ok := s.termOf(c.Args[0], env)
+		set, okp := predicateSet(c.Args[1], true)
+		if !ok || !okp {
+			return fUnknown(name + " on an unresolved term or a predicate that is not a function of the rune alone")
+		}
+		return atom(&LAtom{Kind: "containsAny", Set: set, Term: t, Desc: fmt.Sprintf("ContainsFunc(%s,%s)", termStr(t), set)})
+	}
+	// pred(s[0]) with a pure byte predicate of the repository
+	if len(c.Args) == 1 && f.Blocks != nil && f.Pkg != nil && strings.HasPrefix(f.Pkg.Pkg.Path(), modulePath) {
+		if t, ok := s.firstByteOf(c.Args[0], env); ok {
+			if set, ok := predicateSet(f, false); ok {
+				return firstSymAtom(t, set)
+			}
+			return fUnknown("byte predicate " + name + " is not a function of the byte alone (or treats bytes ≥ 0x80 unevenly)")
+		}
+	}
 	// repo-internal boolean helper: inline its summary
 	if f.Pkg != nil && strings.HasPrefix(f.Pkg.Pkg.Path(), modulePath) && f.Blocks != nil && f.Signature.Results().Len() == 1 {
 		env2 := termEnv{}
@@ -532,7 +590,7 @@ func (s *Summarizer) indexCmp(x *ssa.BinOp, env termEnv) *Form {
 	name := fnName(f)
 	var a *LAtom
 	switch name {
-	case "strings.IndexAny", "strings.Index", "strings.IndexByte", "strings.IndexRune", "strings.LastIndex", "strings.LastIndexAny", "strings.LastIndexByte":
+	case "strings.IndexAny", "strings.Index", "strings.IndexByte", "strings.IndexRune", "strings.LastIndex", "strings.LastIndexAny", "strings.LastIndexByte", "strings.IndexFunc", "strings.LastIndexFunc":
 	default:
 		return nil
 	}
@@ -541,6 +599,12 @@ func (s *Summarizer) indexCmp(x *ssa.BinOp, env termEnv) *Form {
 		return fUnknown(name + " on unresolved term")
 	}
 	switch name {
+	case "strings.IndexFunc", "strings.LastIndexFunc":
+		set, ok := predicateSet(call.Common().Args[1], true)
+		if !ok {
+			return fUnknown(name + " with a predicate that is not a function of the rune alone")
+		}
+		a = &LAtom{Kind: "containsAny", Set: set, Term: t, Desc: fmt.Sprintf("ContainsFunc(%s,%s)", termStr(t), set)}
 	case "strings.IndexAny", "strings.LastIndexAny":
 		k, ok := constString(call.Common().Args[1])
 		if !ok {
@@ -577,6 +641,9 @@ func (s *Summarizer) indexCmp(x *ssa.BinOp, env termEnv) *Form {
 }
 
 func (s *Summarizer) binopForm(x *ssa.BinOp, env termEnv) *Form {
+	if f := s.firstByteCmp(x, env); f != nil {
+		return f
+	}
 	if f := s.indexCmp(x, env); f != nil {
 		return f
 	}
@@ -661,6 +728,32 @@ func (s *Summarizer) binopForm(x *ssa.BinOp, env termEnv) *Form {
 				}
 				if fv, ok := u.X.(*ssa.FreeVar); ok {
 					return wrap(atom(&LAtom{Kind: "prop", Str: "nil(" + fv.Name() + ")", Term: Term{Param: -1}, Desc: "nil(" + fv.Name() + ")"}))
+				}
+			}
+		}
+		// P.FindString(term) == "" / P.FindStringIndex(term) == nil: "no match", provided P cannot match the empty string
+		if cl, ok := a.(*ssa.Call); ok {
+			if g := staticCallee(cl.Common()); g != nil {
+				gn := fnName(g)
+				isEmptyCmp := false
+				if k, ok := constString(b); ok && k == "" && gn == "(*regexp.Regexp).FindString" {
+					isEmptyCmp = true
+				}
+				if c, ok := b.(*ssa.Const); ok && c.Value == nil && (gn == "(*regexp.Regexp).FindStringIndex" || gn == "(*regexp.Regexp).FindStringSubmatchIndex") {
+					isEmptyCmp = true
+				}
+				if isEmptyCmp {
+					rc := s.regexOf(cl.Common().Args[0])
+					t, okT := s.termOf(cl.Common().Args[1], env)
+					if rc == nil || !okT {
+						return fUnknown(gn + " on unresolved pattern or term")
+					}
+					if gn == "(*regexp.Regexp).FindString" {
+						if re, err := regexp.Compile(rc.Src); err != nil || re.MatchString("") {
+							return fUnknown("FindString compared with \"\" for a pattern that can match the empty string")
+						}
+					}
+					return wrap(fNot(atom(&LAtom{Kind: "search", Regex: rc, Term: t, Desc: fmt.Sprintf("Match(%s,%s)", rc.Name, termStr(t))})))
 				}
 			}
 		}
@@ -758,9 +851,48 @@ func (s *Summarizer) lenCmp(x *ssa.BinOp, env termEnv) *Form {
 // conditions taken, computed by forward merging); otherwise the conjunction of
 // the dominating guards of b.
 func (s *Summarizer) blockCond(b *ssa.BasicBlock, env termEnv, what string) *Form {
-	if !hasLoop(b.Parent()) {
+	loops, canonical := s.scanLoopsOf(b.Parent(), env)
+	inLoop := func(x *ssa.BasicBlock) *scanLoop {
+		for _, l := range loops {
+			if l.Blocks[x] {
+				return l
+			}
+		}
+		return nil
+	}
+	if canonical && inLoop(b) == nil {
 		memo := map[*ssa.BasicBlock]*Form{}
 		var cond func(x *ssa.BasicBlock) *Form
+		// edge: condition of reaching x through its predecessor p (p not inside a loop)
+		edge := func(p, x *ssa.BasicBlock) *Form {
+			c := cond(p)
+			if iff, ok := p.Instrs[len(p.Instrs)-1].(*ssa.If); ok && p.Succs[0] != p.Succs[1] {
+				ec := s.ValueForm(iff.Cond, env)
+				if u, why := ec.HasUnknown(); u {
+					s.Inexact = append(s.Inexact, fmt.Sprintf("%s: branch condition dropped (%s)", what, why))
+					s.InexactIn = append(s.InexactIn, ec.UnknownIn())
+					s.noteDropped(iff.Cond, p.Succs[0] == x, env)
+				} else {
+					if p.Succs[1] == x {
+						ec = fNot(ec)
+					}
+					c = fAnd(c, ec)
+				}
+			}
+			return c
+		}
+		entry := func(l *scanLoop) *Form {
+			var alts []*Form
+			for _, q := range l.Header.Preds {
+				if !l.Blocks[q] {
+					alts = append(alts, edge(q, l.Header))
+				}
+			}
+			if len(alts) == 1 {
+				return alts[0]
+			}
+			return fOr(alts...)
+		}
 		cond = func(x *ssa.BasicBlock) *Form {
 			if f, ok := memo[x]; ok {
 				return f
@@ -771,20 +903,13 @@ func (s *Summarizer) blockCond(b *ssa.BasicBlock, env termEnv, what string) *For
 			}
 			var alts []*Form
 			for _, p := range x.Preds {
-				c := cond(p)
-				if iff, ok := p.Instrs[len(p.Instrs)-1].(*ssa.If); ok && p.Succs[0] != p.Succs[1] {
-					ec := s.ValueForm(iff.Cond, env)
-					if u, why := ec.HasUnknown(); u {
-						s.Inexact = append(s.Inexact, fmt.Sprintf("%s: branch condition dropped (%s)", what, why))
-						s.InexactIn = append(s.InexactIn, ec.UnknownIn())
-					} else {
-						if p.Succs[1] == x {
-							ec = fNot(ec)
-						}
-						c = fAnd(c, ec)
-					}
+				if l := inLoop(p); l != nil {
+					// the loop is left along p→x: summarised as a condition on the scanned string
+					t, _ := s.termOf(l.Str, env)
+					alts = append(alts, fAnd(entry(l), atom(l.edgeAtom(t, p, x))))
+					continue
 				}
-				alts = append(alts, c)
+				alts = append(alts, edge(p, x))
 			}
 			var f *Form
 			if len(alts) == 1 {
@@ -804,6 +929,7 @@ func (s *Summarizer) blockCond(b *ssa.BasicBlock, env termEnv, what string) *For
 			// a dropped conjunct only weakens the condition
 			s.Inexact = append(s.Inexact, fmt.Sprintf("%s: guard dropped (%s)", what, why))
 			s.InexactIn = append(s.InexactIn, f.UnknownIn())
+			s.noteDropped(g.Cond, g.Pol, env)
 			continue
 		}
 		if !g.Pol {
@@ -860,7 +986,7 @@ func (s *Summarizer) FuncForm(f *ssa.Function, env termEnv) *Form {
 		}
 	}
 	s.exitGroups = append(s.exitGroups, conds)
-	if hasLoop(f) {
+	if _, canonical := s.scanLoopsOf(f, env); !canonical {
 		s.Inexact = append(s.Inexact, fnName(f)+" contains a loop")
 		s.InexactIn = append(s.InexactIn, f)
 	}
@@ -1061,6 +1187,10 @@ func (l *Lang) Register(f *Form) error {
 			}
 		case "containsAny":
 			l.AddSet(a.Set)
+		case "scan":
+			l.AddSet(a.Set)
+			l.AddSet(a.Set2)
+			l.AddSet(relang.NewSet(0, 0x7F))
 		case "contains", "hasprefix", "hassuffix", "eq":
 			l.AddString(a.Str)
 		}
@@ -1138,6 +1268,8 @@ func (l *Lang) Eval(f *Form) (*relang.DFA, []string, error) {
 			d = deq
 		case "containsAny":
 			d = relang.ContainsSym(l.A, a.Set)
+		case "scan":
+			d = scanDFA(l.A, a.N, a.Set, a.Set2, a.End, false).Minimize()
 		case "contains":
 			d = l.search(l.quoteRe(a.Str))
 		case "hasprefix":
@@ -1373,4 +1505,177 @@ func (l *Lang) CheckExact(s *Summarizer) []string {
 		}
 	}
 	return problems
+}
+
+// scanLoopsOf returns the scan loops of fn whose scanned string is a term under env;
+// canonical reports that every loop of fn is one of them (so that path conditions can be
+// computed over the loop-collapsed graph).
+func (s *Summarizer) scanLoopsOf(fn *ssa.Function, env termEnv) ([]*scanLoop, bool) {
+	if !hasLoop(fn) {
+		return nil, true
+	}
+	if s.loopCache == nil {
+		s.loopCache = map[*ssa.Function][]*scanLoop{}
+		s.loopOK = map[*ssa.Function]bool{}
+	}
+	loops, done := s.loopCache[fn]
+	ok := s.loopOK[fn]
+	if !done {
+		loops, ok = findScanLoops(s.prog, fn)
+		s.loopCache[fn], s.loopOK[fn] = loops, ok
+	}
+	if !ok {
+		return nil, false
+	}
+	for _, l := range loops {
+		if _, okT := s.termOf(l.Str, env); !okT {
+			return nil, false
+		}
+	}
+	return loops, true
+}
+
+// firstByteOf: v is term[0] (byte index 0 of a string term).
+func (s *Summarizer) firstByteOf(v ssa.Value, env termEnv) (Term, bool) {
+	if c, ok := v.(*ssa.Convert); ok {
+		v = c.X
+	}
+	var base, idx ssa.Value
+	switch x := v.(type) {
+	case *ssa.Index:
+		base, idx = x.X, x.Index
+	case *ssa.Lookup:
+		base, idx = x.X, x.Index
+	default:
+		return Term{}, false
+	}
+	if k, ok := constInt(idx); !ok || k != 0 {
+		return Term{}, false
+	}
+	if !isStringish(base.Type()) {
+		return Term{}, false
+	}
+	return s.termOf(base, env)
+}
+
+// firstSymAtom: "the string is non-empty and its first symbol is in set" (set over code points).
+func firstSymAtom(t Term, set *relang.Set) *Form {
+	return atom(&LAtom{Kind: "scan", Term: t, N: 0, Set: set, Set2: set.Complement(), End: false, Desc: fmt.Sprintf("first(%s)∈%s", termStr(t), set)})
+}
+
+// liftByteSet turns a set of byte values into a set of code points, provided the bytes
+// ≥ 0x80 are all inside or all outside (then "byte 0 of the UTF-8 encoding is in the set"
+// is a property of the first code point).
+func liftByteSet(set *relang.Set) (*relang.Set, bool) {
+	hi := relang.NewSet(0x80, 0xFF)
+	in := set.Intersect(hi)
+	out := set.Intersect(relang.NewSet(0, 0x7F))
+	if in.Empty() {
+		return out, true
+	}
+	if !hi.Minus(set).Empty() {
+		return nil, false
+	}
+	return out.Union(relang.NewSet(0x80, relang.INV)), true
+}
+
+// firstByteCmp recognises term[0] <op> constant.
+func (s *Summarizer) firstByteCmp(x *ssa.BinOp, env termEnv) *Form {
+	t, ok := s.firstByteOf(x.X, env)
+	varLeft := true
+	other := x.Y
+	if !ok {
+		t, ok = s.firstByteOf(x.Y, env)
+		varLeft = false
+		other = x.X
+	}
+	if !ok {
+		return nil
+	}
+	k, okk := constInt(other)
+	if !okk {
+		return fUnknown("first byte compared with a non-constant")
+	}
+	ts, _ := cmpSplit(x.Op, k, byteDomain(), varLeft)
+	if ts == nil {
+		return fUnknown("first byte comparison " + x.Op.String())
+	}
+	set, okl := liftByteSet(ts)
+	if !okl {
+		return fUnknown("first byte comparison splits the bytes ≥ 0x80")
+	}
+	return firstSymAtom(t, set)
+}
+
+// predicateSet evaluates a pure predicate function (a *ssa.Function value, or a closure
+// without free variables) of one byte or rune: the set of code points it accepts.
+func predicateSet(v ssa.Value, runeArg bool) (*relang.Set, bool) {
+	var g *ssa.Function
+	switch x := v.(type) {
+	case *ssa.Function:
+		g = x
+	case *ssa.MakeClosure:
+		if len(x.Bindings) == 0 {
+			g, _ = x.Fn.(*ssa.Function)
+		}
+	case *ssa.ChangeType:
+		return predicateSet(x.X, runeArg)
+	}
+	if g == nil || g.Blocks == nil || len(g.Params) != 1 || g.Signature.Results().Len() != 1 {
+		return nil, false
+	}
+	b, ok := g.Params[0].Type().Underlying().(*types.Basic)
+	if !ok {
+		return nil, false
+	}
+	var dom *relang.Set
+	switch b.Kind() {
+	case types.Uint8:
+		dom = byteDomain()
+	case types.Int32:
+		dom = runeDomain()
+	default:
+		return nil, false
+	}
+	leaves := decisionTable(g.Blocks[0], dtConfig{Var: g.Params[0], Dom: dom, Leaf: func(*ssa.BasicBlock) (string, bool) { return "", false }, Max: 2000})
+	for _, l := range leaves {
+		if (l.Effect != "return:true" && l.Effect != "return:false") || len(l.Tags) > 0 {
+			return nil, false
+		}
+	}
+	t := effectSet(leaves, "return:true", nil)
+	if b.Kind() == types.Uint8 {
+		return liftByteSet(t)
+	}
+	// rune predicates see U+FFFD for invalid bytes
+	if t.Contains(0xFFFD) {
+		t = t.Union(relang.NewSet(relang.INV, relang.INV))
+	}
+	return t, true
+}
+
+// noteDropped records a dropped branch condition that is a call of a repository helper.
+func (s *Summarizer) noteDropped(cond ssa.Value, pol bool, env termEnv) {
+	for {
+		u, ok := cond.(*ssa.UnOp)
+		if !ok || u.Op != token.NOT {
+			break
+		}
+		cond, pol = u.X, !pol
+	}
+	call, ok := cond.(*ssa.Call)
+	if !ok {
+		return
+	}
+	f := staticCallee(call.Common())
+	if f == nil || f.Pkg == nil || !strings.HasPrefix(f.Pkg.Pkg.Path(), modulePath) {
+		return
+	}
+	var args []Term
+	for _, a := range call.Common().Args {
+		if t, ok := s.termOf(a, env); ok {
+			args = append(args, t)
+		}
+	}
+	s.Dropped = append(s.Dropped, droppedGuard{Fn: f, Args: args, Pol: pol})
 }
